@@ -465,10 +465,11 @@ type SpecDB struct {
 	Axioms  []*Axiom
 	Ghosts  map[string]*GhostVar
 	Consts  map[string]string
+	GhostFns map[string]*SpecFunc
 }
 
 func newSpecDB() *SpecDB {
-	return &SpecDB{Specs: map[string]*SpecFunc{}, Ghosts: map[string]*GhostVar{}, Consts: map[string]string{}}
+	return &SpecDB{Specs: map[string]*SpecFunc{}, Ghosts: map[string]*GhostVar{}, Consts: map[string]string{}, GhostFns: map[string]*SpecFunc{}}
 }
 
 func parseClause(rest, file string, line int) (*Clause, error) {
@@ -673,6 +674,16 @@ func (db *SpecDB) parseSpecText(text, file, pkgPath string) error {
 			if cur != nil {
 				cur.Notes = append(cur.Notes, rest)
 			}
+		case "ghostfn":
+			sf, err := parseSpecFunc(rest, false)
+			if err != nil {
+				return fail("%v", err)
+			}
+			if sf.Body != nil {
+				return fail("ghostfn %s cannot have a body", sf.Name)
+			}
+			sf.PkgPath = pkgPath
+			db.GhostFns[sf.Name] = sf
 		case "spec", "pred":
 			sf, err := parseSpecFunc(rest, kw == "pred")
 			if err != nil {
